@@ -195,9 +195,9 @@ redis:
 	for time.Now().Before(deadline) {
 		select {
 		case <-p.exited:
-			msg := p.Stderr()
+			msg := p.Stderr() + p.logTail()
 			p.cleanup()
-			return nil, fmt.Errorf("proxy exited during start: %v: %s", p.err, tail(msg, 600))
+			return nil, fmt.Errorf("proxy exited during start: %v: %s", p.err, tail(msg, 900))
 		default:
 		}
 		c, err := net.DialTimeout("tcp4", p.Addr(), 200*time.Millisecond)
@@ -255,6 +255,19 @@ func (p *Proxy) ExitInfo() string {
 		return "alive"
 	}
 	return fmt.Sprintf("exited: %v; stderr tail: %s", p.err, tail(p.Stderr(), 1500))
+}
+
+// logTail returns the end of the proxy's log files.
+func (p *Proxy) logTail() string {
+	var out string
+	files, _ := filepath.Glob(filepath.Join(p.Dir, "log*", "*"))
+	more, _ := filepath.Glob(filepath.Join(p.Dir, "log*"))
+	for _, f := range append(files, more...) {
+		if b, err := os.ReadFile(f); err == nil {
+			out += " | " + filepath.Base(f) + ": " + tail(string(b), 500)
+		}
+	}
+	return out
 }
 
 // ConfDir is the directory holding rc.yaml and authip.yaml.
